@@ -72,7 +72,9 @@ def fa_to_ref(sh, fa, rng, case, recs):
     codec = rng.choice(CODECS)
     marker = bytes(rng.getrandbits(8) for _ in range(16))
     interval = rng.choice([0, 1, 10, 50, 200, 16000])
-    meta = rng.choice([None, {"user": "méta"}, {"a": "1", "b": "2"}])
+    meta = rng.choice([None, {"user": "méta"}, {"a": "1", "b": "2"},
+                       # a dict carried over from another file's reader.metadata holds the reserved keys
+                       {"avro.codec": rng.choice(CODECS), "origin": "copied"}, {"avro.codec": "null", "avro.schema": '"long"', "k": "v"}])
     cfg = {"codec": codec, "interval": interval, "meta": meta, "marker": marker}
     info = {"dir": "fa->ref", "schema": js, "records": recs, "cfg": cfg}
     sh.case(h64("a", schema_shape(js), min(len(recs), 4), codec, interval), True)
@@ -109,7 +111,8 @@ def fa_to_ref(sh, fa, rng, case, recs):
     if split is not None:
         # the rest is appended by a second call (stream left at its end): the file keeps its own
         # header, codec and marker whatever the second call passes
-        kw = rng.choice([{}, {"codec": rng.choice(CODECS)}, {"codec": codec, "sync_interval": 1}])
+        kw = rng.choice([{}, {"codec": rng.choice(CODECS)}, {"codec": codec, "sync_interval": 1},
+                         {"sync_marker": b"0123456789abcdef"}, {"metadata": {"avro.codec": rng.choice(CODECS), "late": "x"}}])
         cfg["append"] = {"at": split, "kw": kw}
         st, err = guard(fa.writer, fo, copy.deepcopy(js), list(recs[split:]), **kw)
         if st == "exc":
@@ -137,6 +140,8 @@ def fa_to_ref(sh, fa, rng, case, recs):
         sh.violation("header-schema-invalid", "schema JSON in the header is not a valid schema: %s" % exc_name(e), info)
         return
     for k, v in (meta or {}).items():
+        if k.startswith("avro."):
+            continue  # reserved keys belong to the format: codec and schema were checked above
         if cont.meta.get(k) != v.encode():
             sh.violation("metadata-lost", "header metadata %r = %r" % (k, cont.meta.get(k)), info)
             return
